@@ -147,8 +147,8 @@ class Isomorphism(Generic[ClassType1, ObjType1, ClassType2, ObjType2]):
             self._path_tracker_push(
                 non_empty_ind1[i1],
                 non_empty_ind2[i2],
-                len(eq_path1) > 1,
-                len(eq_path2) > 1,
+                len(eq_path1) - 1,
+                len(eq_path2) - 1,
             )
 
             # Call _are_isomorphic recursively for current pair
@@ -194,10 +194,14 @@ class Isomorphism(Generic[ClassType1, ObjType1, ClassType2, ObjType2]):
         """Get path to nodes that are not on the LHS of equivalence rules."""
         rule1, rule2 = self._rules1[node1], self._rules2[node2]
         nodes1, nodes2 = [node1], [node2]
-        if rule1.is_equivalence():
+        # A specification can have several equivalence rules in a row (around a
+        # class that is also the child of another rule): follow all of them.
+        while rule1.is_equivalence() and rule1.children[0] not in nodes1:
             nodes1.append(rule1.children[0])
-        if rule2.is_equivalence():
+            rule1 = self._rules1[nodes1[-1]]
+        while rule2.is_equivalence() and rule2.children[0] not in nodes2:
             nodes2.append(rule2.children[0])
+            rule2 = self._rules2[nodes2[-1]]
         return nodes1, nodes2
 
     def _base_cases(
@@ -243,11 +247,12 @@ class Isomorphism(Generic[ClassType1, ObjType1, ClassType2, ObjType2]):
         return Isomorphism._UNKNOWN
 
     def _path_tracker_push(
-        self, c1: int, c2: int, eq_path1: bool, eq_path2: bool
+        self, c1: int, c2: int, eq_path1: int, eq_path2: int
     ) -> None:
-        """Store the path being taken."""
-        t1 = (0, c1) if eq_path1 else (c1,)
-        t2 = (0, c2) if eq_path2 else (c2,)
+        """Store the path being taken: one step with index 0 for every equivalence
+        rule passed (eq_path1, eq_path2 are their numbers), then the child index."""
+        t1 = (0,) * int(eq_path1) + (c1,)
+        t2 = (0,) * int(eq_path2) + (c2,)
         self._path_tracker.append((t1, t2))
 
     def _path_tracker_pop(self) -> None:
